@@ -164,3 +164,76 @@ keep("V07b", ALL, [("entry_point.py", "return u.max(where=f, initial=-jnp.inf)",
      why="function spelling of the masked max")
 keep("V07c", ALL, [("ndimage.py", "    lower_weight = 1 - upper_weight\n", "    lower_weight = lower_index + 1 - coordinate\n", 1)],
      why="algebraically equal weight")
+
+# ------------------------------------------------------------------------------ simulate: R15 / R6 / R5 / AX5
+brk("A07", ["C02", "C08"], "simulate.py", "            if dense_argmax is not None:\n                dense_argmax = dense_argmax[sparse_argmax]\n", "",
+    "dense_argmax not selected by sparse_argmax (D3 re-introduced)")
+brk("A08", ["C02", "C08"], "simulate.py", "            cont_choice_argmax = cont_choice_argmax[sparse_argmax]\n", "            pass\n",
+    "cont_choice_argmax not selected")
+brk("A09", ["C02"], "simulate.py", "            grids=data_scs.dense_vars,\n            grid_shape=dense_vars_grid_shape,",
+    "            grids=data_scs.dense_vars,\n            grid_shape=cont_choice_grid_shape,", "unravel shape from another grid dict")
+brk("L01", ["C08"], "simulate.py", "            _combination_grid[name] = jnp.repeat(\n                state,\n                repeats=n_sc_product_combinations,\n            )",
+    "            _combination_grid[name] = jnp.tile(\n                state,\n                reps=n_sc_product_combinations,\n            )", "repeat<->tile for states")
+brk("L02", ["C08"], "simulate.py", "        data_choice_segments = create_choice_segments(\n            mask=mask,",
+    "        data_choice_segments = create_choice_segments(\n            mask=jnp.ones_like(mask),", "segments from a different mask")
+brk("L03", ["C13"], "simulate.py", 'out["_period"] = jnp.repeat(jnp.arange(n_periods), n_initial_states)',
+    'out["_period"] = jnp.tile(jnp.arange(n_periods), n_initial_states)', "_period via tile")
+brk("L04", ["C13"], "simulate.py", "        [range(n_periods), range(n_initial_states)],", "        [range(n_initial_states), range(n_periods)],",
+    "from_product levels swapped")
+brk("L05", ["C17", "C05"], "state_space.py", '_all_combis = jnp.meshgrid(*_grids.values(), indexing="ij")',
+    '_all_combis = jnp.meshgrid(*_grids.values(), indexing="xy")', "meshgrid xy")
+brk("K01", ["C04"], "simulate.py", "        key, sim_keys = _generate_simulation_keys(", "        _, sim_keys = _generate_simulation_keys(",
+    "key not rebound in the loop")
+brk("K02", ["C04"], "simulate.py", "simulation_keys = dict(zip(ids, keys[1:], strict=True))", "simulation_keys = dict(zip(ids, keys[:-1], strict=True))",
+    "overlapping slices of the split")
+brk("K03", ["C04"], "simulate.py", "simulation_keys = dict(zip(ids, keys[1:], strict=True))", "simulation_keys = {i: keys[1] for i in ids}",
+    "same key for every variable")
+brk("K04", ["C04"], "random_choice.py", "@partial(jax.vmap, in_axes=(0, 0, None))", "@partial(jax.vmap, in_axes=(None, 0, None))",
+    "key not mapped over agents")
+brk("K05", ["C04", "C03"], "random_choice.py", "return jax.random.choice(key, a=labels, p=probs)", "return jax.random.choice(key, a=labels)",
+    "p= dropped: uniform draws")
+brk("K06", ["C04"], "random_choice.py", "    keys = jax.random.split(key, probs.shape[0])", "    keys = jax.random.split(jax.random.PRNGKey(0), probs.shape[0])",
+    "second PRNGKey(0)")
+brk("K08", ["C04"], "simulate.py",
+    '''        _simulation_results.append(
+            {
+                "value": value,
+                "choices": choices,
+                "states": states,
+            },
+        )
+
+        # Update states
+        # ==============================================================================
+        key, sim_keys = _generate_simulation_keys(
+            key=key,
+            ids=model.function_info.query("is_stochastic_next").index,
+        )
+''',
+    '''        key, sim_keys = _generate_simulation_keys(
+            key=key,
+            ids=model.function_info.query("is_stochastic_next").index,
+        )
+        _simulation_results.append(
+            {
+                "value": value + 0 * jax.random.uniform(key),
+                "choices": choices,
+                "states": states,
+            },
+        )
+''', "stored value touched by the period's key")
+brk("F01", ["C03"], "simulate.py", "        states = next_state(\n            **states,\n            **choices,\n            _period=jnp.repeat(period, n_initial_states),",
+    "        states = next_state(\n            **states,\n            **choices,\n            _period=jnp.repeat(period + 1, n_initial_states),", "_period + 1 for the transition")
+brk("F02", ["C03"], "simulate.py", 'states = {k.removeprefix("next_"): v for k, v in states.items()}',
+    'states = {k.removeprefix("next_"): v.astype(initial_states[k.removeprefix("next_")].dtype) for k, v in states.items()}', "dtype cast of the new states")
+brk("F03", ["C03"], "next_state.py", "functions_dict = model.functions | stochastic_next | stochastic_weights",
+    "functions_dict = stochastic_next | stochastic_weights | model.functions", "samplers overridden by placeholders")
+brk("F04", ["C13", "C09"], "simulate.py", "            model_functions=model.functions,\n            params=params,",
+    "            model_functions=model.functions,\n            params=model.params,", "targets computed with the template params")
+brk("F05", ["C03"], "simulate.py", '                "states": states,\n', '                "states": initial_states,\n', "stored states are always the initial states")
+keep("V03", ALL, [("simulate.py", "        dense_argmax, sparse_argmax, value = discrete_policy_calculator(ccv)\n",
+                   "        _policy_result = discrete_policy_calculator(ccv)\n        dense_argmax, sparse_argmax, value = _policy_result\n", 1)],
+     why="temporary for the policy result")
+keep("V03b", ALL, [("simulate.py", "            _period=jnp.repeat(period, n_initial_states),",
+                    "            _period=jnp.repeat(period, len(next(iter(initial_states.values())))),", 1)],
+     why="n_initial_states spelled out")
